@@ -18,7 +18,7 @@ Section FLd.
   Variable p : fcprog.
   Variable cp : cprog.
   Hypothesis Hcod : cpcodata cp = codata_of p.
-  Hypothesis Hdefs : forall f d, ffind_def p f = Some d -> f <> "main" -> callee_ok p cp d.
+  Hypothesis Hdefs : forall f d, ffind_def p f = Some d -> (f <> "main" \/ calls_main_prog p = true) -> callee_ok p cp d.
 
   Lemma chi_kind_list : forall (l1 l2 : list (fchi * bool)), list_eqb (chi_kind_eqb) l1 l2 = true -> l1 = l2.
   Proof.
@@ -44,7 +44,7 @@ Section FLd.
 
   Lemma call_finish : forall N, (forall N', (N' < N)%nat -> forall t, flw p cp N' t) ->
     forall j, (j <= N)%nat -> forall f args ret e ce k cont new new',
-    f <> "main" -> call_kinds p f args ret = true ->
+    (f <> "main" \/ calls_main_prog p = true) -> call_kinds p f args ret = true ->
     Forall2 (brel p cp j) new new' ->
     Forall2 (fun b y => okb p false y b /\ fkind b = compile_chi (arg_chi y)) new args ->
     cont_shape cp (f_is_codata_o p ret) cont -> KS p cp j (f_is_codata_o p ret) k cont ce ->
